@@ -359,6 +359,48 @@ def untouched_pattern_faults(res, rng, api, shapes):
                         res.violation(f"C19:not-atomic:{setter}", f"{setter} on a never-touched {tracks}x{lines} pattern failed at {k} but the pattern is no longer empty", case)
 
 
+def attached_during_the_edit(res, rng, api):
+    """The callable itself attaches the (so far free) pattern to a project while the edit is under way (a builder that registers
+    what it fills): after the successful edit the pattern belongs to that project in both directions."""
+    for setter in ("fn", "gen"):
+        for at in ("first-cell", "last-cell"):
+            pat = api.Pattern(tracks=2, lines=3)
+            proj = api.Project()
+            proj.new_module(api.m.Amplifier)
+            state = {"n": 0}
+            case = {"setter": setter, "attached_at": at, "family": "attached-during-the-edit"}
+
+            def maybe_attach():
+                state["n"] += 1
+                if (at == "first-cell" and state["n"] == 1) or (at == "last-cell" and state["n"] == 6):
+                    proj.attach_pattern(pat)
+            try:
+                if setter == "fn":
+                    def fn(p_, l_, t_):
+                        maybe_attach()
+                        return api.Note(vel=1 + l_ * 2 + t_)
+                    pat.set_via_fn(fn)
+                else:
+                    def gen(p_, new_):
+                        for l_ in range(3):
+                            for t_ in range(2):
+                                maybe_attach()
+                                yield l_, t_, api.Note(vel=1 + l_ * 2 + t_)
+                    pat.set_via_gen(gen)
+            except Exception as e:
+                res.violation(f"C19:unexpected-exception:{setter}", f"{setter} whose callable attaches the pattern to a project ({at}) raised {e!r}", case)
+                continue
+            res.count("edits_attaching_the_pattern")
+            if [[n.vel for n in line] for line in pat.data] != [[1 + l_ * 2 + t_ for t_ in range(2)] for l_ in range(3)]:
+                res.violation(f"C19:wrong-note:{setter}", "notes supplied while the pattern was being attached were not installed", case)
+                continue
+            if pat not in proj.patterns or pat.project is not proj:
+                res.violation(f"C19:note-project:{setter}", f"the callable attached the pattern to a project ({at}); afterwards project.patterns holds it: {pat in proj.patterns}, "
+                                                           f"pattern.project is the project: {pat.project is proj}", case)
+                continue
+            ownership_ok(res, pat, proj, case, setter)
+
+
 def foreign_owned_notes(res, rng, api):
     """The callable hands over Note objects that currently belong to ANOTHER pattern (copying from a template without
     clone()).  After the edit they are contents of this pattern and must be owned by it."""
@@ -473,6 +515,7 @@ def run_shard(spec_, res):
         run_exhaustive(res, rng, api, [tuple(s) for s in spec_["shapes"]])
         untouched_pattern_faults(res, rng, api, [tuple(s) for s in spec_["shapes"]])
         foreign_owned_notes(res, rng, api)
+        attached_during_the_edit(res, rng, api)
         res.sample({"shape": spec_["shapes"][0], "setter": "fn", "fault_at": "every cell index, then success"})
     else:
         run_random(res, rng, api, spec_["n"])
